@@ -38,20 +38,22 @@ META = {
     "phases": [{"name": "main", "flavour": "P", "shards": 16},
                {"name": "defs", "flavour": "S", "shards": 8}],
     "gates": {
-        "quick": {"evaluations": 300000, "states": 600, "copies": 6000, "batteries_completed": 4000,
-                  "values_compared": 100000, "transient_checked": 10000, "sharing_checked": 5000,
-                  "live_rejected": 20000, "live_accepted": 10000, "live_converted": 1500,
-                  "live_notify_probes": 30000, "live_notifications": 60000, "property_steps": 15000,
-                  "readonly_checked": 1000, "container_copies": 3000,
-                  "def_kinds": 200, "def_roundtrips": 1000, "def_roundtrips_sanitized": 400,
-                  "def_validate_comparisons": 200000, "def_install_steps": 60000},
-        "thorough": {"evaluations": 5000000, "states": 20000, "copies": 200000, "batteries_completed": 120000,
-                     "values_compared": 3000000, "transient_checked": 300000, "sharing_checked": 150000,
-                     "live_rejected": 600000, "live_accepted": 300000, "live_converted": 50000,
-                     "live_notify_probes": 1000000, "live_notifications": 2000000, "property_steps": 500000,
-                     "readonly_checked": 30000, "container_copies": 100000,
-                     "def_kinds": 200, "def_roundtrips": 1000, "def_roundtrips_sanitized": 400,
-                     "def_validate_comparisons": 200000, "def_install_steps": 60000},
+        "quick": {"evaluations": 700000, "states": 600, "copies": 4000, "batteries_completed": 4000,
+                  "values_compared": 250000, "transient_checked": 15000,
+                  "transient_nondefault_in_original": 2500, "sharing_checked": 4000,
+                  "live_rejected": 60000, "live_accepted": 35000, "live_converted": 15000,
+                  "live_notify_probes": 45000, "live_notifications": 100000, "property_steps": 20000,
+                  "readonly_checked": 2000, "container_copies": 2000,
+                  "def_kinds": 120, "def_roundtrips": 600, "def_roundtrips_sanitized": 300,
+                  "def_validate_comparisons": 140000, "def_install_steps": 80000},
+        "thorough": {"evaluations": 20000000, "states": 18000, "copies": 120000, "batteries_completed": 120000,
+                     "values_compared": 7500000, "transient_checked": 450000,
+                     "transient_nondefault_in_original": 75000, "sharing_checked": 120000,
+                     "live_rejected": 1800000, "live_accepted": 1000000, "live_converted": 450000,
+                     "live_notify_probes": 1300000, "live_notifications": 3000000, "property_steps": 600000,
+                     "readonly_checked": 60000, "container_copies": 60000,
+                     "def_kinds": 120, "def_roundtrips": 600, "def_roundtrips_sanitized": 300,
+                     "def_validate_comparisons": 140000, "def_install_steps": 80000},
     },
     "assumptions": [
         "vf/reference.py decides which items a container of the copy must reject / convert",
